@@ -34,6 +34,9 @@ use trust_hir::symbols::SymbolTable;
 use trust_hir::TypeId;
 use trust_hir::{Project, SourceKey};
 
+#[path = "c13/lsp.rs"]
+mod lsp_layer;
+
 // ------------------------------------------------------------------------------------------------
 // Answers and their canonical form
 // ------------------------------------------------------------------------------------------------
@@ -1595,6 +1598,9 @@ fn fresh_project(order: &[usize], finals: &BTreeMap<usize, String>) -> Project {
 enum POp {
     Set(usize, String),
     Rm(usize),
+    /// what `rename_document` does to the project: remove(old); remove(new); set(new, text of old)
+    /// (`old == new`: two spellings of one file)
+    Ren(usize, usize),
     Q(Kind, usize, Option<u32>),
 }
 
@@ -1657,8 +1663,12 @@ fn run_proj_case(
                 if step < nkeys && r < 80 || r < 35 {
                     let k = if step < nkeys { step } else { rng.below(nkeys as u64) as usize };
                     POp::Set(k, next_text(rng, &pool, k, finals.get(&k).map(|s| s.as_str()), out))
-                } else if r < 55 {
+                } else if r < 52 {
                     POp::Rm(rng.below(nkeys as u64 + 1) as usize) // nkeys = a key never added
+                } else if r < 60 {
+                    let old = rng.below(nkeys as u64 + 1) as usize;
+                    let new = if rng.chance(1, 3) { old } else { rng.below(nkeys as u64) as usize };
+                    POp::Ren(old, new)
                 } else {
                     POp::Q(*rng.pick(&KINDS), rng.below(nkeys as u64) as usize, None)
                 }
@@ -1695,6 +1705,31 @@ fn run_proj_case(
                 if r.is_err() {
                     out.line("impl panic");
                     out.line(format!("#p rm {k} 0 same_order=1 key_order=1 repeat=1 panic=1 order_differs=0"));
+                    out.line(format!("#x panic {}", hex(take_panic().as_bytes())));
+                    aborted = true;
+                    break;
+                }
+            }
+            POp::Ren(old, new) => {
+                out.line(format!("pren {old} {new}"));
+                out.count(if old == new { "proj_rename_alias" } else { "proj_rename" });
+                let r = catch_unwind(AssertUnwindSafe(|| {
+                    let Some(id) = proj.file_id_for_key(&key_of(old)) else { return };
+                    let text = proj.database().source_text(id).as_ref().clone();
+                    proj.remove_source(&key_of(old));
+                    proj.remove_source(&key_of(new));
+                    proj.set_source_text(key_of(new), text);
+                }));
+                if let Some(t) = finals.remove(&old) {
+                    finals.insert(new, t);
+                    if !removed.contains(&old) {
+                        removed.push(old);
+                    }
+                    readded = true;
+                }
+                if r.is_err() {
+                    out.line("impl panic");
+                    out.line(format!("#p ren {old} 0 same_order=1 key_order=1 repeat=1 panic=1 order_differs=0"));
                     out.line(format!("#x panic {}", hex(take_panic().as_bytes())));
                     aborted = true;
                     break;
@@ -1884,6 +1919,84 @@ fn run_freshq(path: &str) -> i32 {
     0
 }
 
+fn run_lsp_cases(args: &Args, nlsp: u64, steps: usize, out: &mut Out) -> i32 {
+    let bin = args
+        .extra
+        .get("lspbin")
+        .cloned()
+        .or_else(|| std::env::var("VERIF_LSP_BIN").ok())
+        .unwrap_or_else(|| {
+            // <root>/.build/cargo/debug/vharness -> <root>/.build/lsp/debug/trust-lsp
+            let exe = std::env::current_exe().expect("current_exe");
+            exe.parent()
+                .and_then(|p| p.parent())
+                .and_then(|p| p.parent())
+                .map(|p| p.join("lsp").join("debug").join("trust-lsp"))
+                .expect("layout")
+                .to_string_lossy()
+                .to_string()
+        });
+    if !std::path::Path::new(&bin).exists() {
+        eprintln!("trust-lsp binary not found at {bin}");
+        return 2;
+    }
+    let base = args.cases + 2;
+    let numbers: Vec<u64> = match args.only {
+        Some(n) if n >= base && n < base + nlsp => vec![n],
+        Some(_) => Vec::new(),
+        None => (base..base + nlsp).collect(),
+    };
+    let jobs = args.extra_usize("jobs", 4).max(1);
+    let seed = args.seed;
+    let wsbase = std::env::temp_dir();
+    let lsteps = args.extra_usize("lspsteps", steps.min(14));
+    let mut results: Vec<(u64, lsp_layer::LspCaseOut)> = std::thread::scope(|sc| {
+        let mut handles = Vec::new();
+        for j in 0..jobs {
+            let mine: Vec<u64> = numbers.iter().copied().skip(j).step_by(jobs).collect();
+            let bin = bin.clone();
+            let wsbase = wsbase.clone();
+            handles.push(sc.spawn(move || {
+                mine.into_iter()
+                    .map(|n| {
+                        let mut rng = Rng::for_case(seed, n);
+                        let variants = |slots: Vec<Slot>| slots.into_iter().map(|s| s.variants).collect::<Vec<_>>();
+                        let roles = lsp_layer::roles(variants(theme_func(&mut rng)), variants(theme_types(&mut rng)));
+                        let (initial, script, witness) = if n == base {
+                            let (i, s) = lsp_layer::alias_witness();
+                            (i, s, 1)
+                        } else if n == base + 1 {
+                            let (i, s) = lsp_layer::symlink_delete_witness();
+                            (i, s, 2)
+                        } else {
+                            let (i, s) = lsp_layer::gen_script(&mut rng, &roles, lsteps, &|r, t| mutate(r, t));
+                            (i, s, 0)
+                        };
+                        (n, lsp_layer::run_case(&bin, n, &wsbase, &initial, &script, witness))
+                    })
+                    .collect::<Vec<_>>()
+            }));
+        }
+        handles.into_iter().flat_map(|h| h.join().expect("lsp worker")).collect()
+    });
+    results.sort_by_key(|(n, _)| *n);
+    let mut errors = 0;
+    for (_, c) in &results {
+        for l in &c.lines {
+            out.line(l);
+        }
+        for (k, v) in &c.stats {
+            out.add(k, *v);
+        }
+        if c.transport_error.is_some() {
+            errors += 1;
+        }
+        out.count("cases_lsp");
+    }
+    out.add("lsp_sessions_with_transport_error", errors);
+    0
+}
+
 pub fn run(args: &Args) -> i32 {
     if let Some(path) = args.extra.get("freshq") {
         return run_freshq(path);
@@ -1930,6 +2043,15 @@ pub fn run(args: &Args) -> i32 {
         out.count("cases_witness");
     }
     let _ = std::panic::take_hook();
+    // third layer: sessions with the real trust-lsp binary (case numbers from `--cases` + 2; the
+    // first one is the fixed aliasing-rename regression case)
+    let nlsp = args.extra_usize("lsp", 0) as u64;
+    if nlsp > 0 {
+        let code = run_lsp_cases(args, nlsp, steps, &mut out);
+        if code != 0 {
+            return code;
+        }
+    }
     out.finish(&args.out);
     0
 }
